@@ -601,6 +601,7 @@ class ConvertStorySend(Contract):
             z3.ForAll([q], z3.Not(H2.mem(q, r)), patterns=[H2.mem(q, r)]),
             H2.find(r, lit('storyID')) == cp(e, H.find(o, lit('storyID'))),
             H2.find(r, lit('storyID')) != null,
+            text(H2.find(r, lit('storyID'))) == text(H.find(o, lit('storyID'))),
             timing_ok(W, H2, r),
             z3.ForAll([z], Imp(A(H2.mem(r, z), H2.tag(z) == lit('item')), H2.find(z, lit('itemID')) != null), patterns=[H2.mem(r, z)]),
         ]
